@@ -9,8 +9,8 @@
    functions with the round-trip law as an explicit premise; the digest H is arbitrary. *)
 From Coq Require Import List NArith Arith Bool.
 From DS Require Import Gen.Constants Base.Bytes Base.Hash Base.Hex Base.GoPath Base.LE64
-     Model.HTTPServer Model.HTTPClient Model.Protocol
-     Proofs.HTTPServerProofs Proofs.HTTPClientProofs Proofs.TransportProofs Proofs.ProtocolProofs.
+     Model.HTTPServer Model.HTTPClient Model.ProtocolSession
+     Proofs.HTTPServerProofs Proofs.HTTPClientProofs Proofs.TransportProofs Proofs.ProtocolSessionProofs.
 Import ListNotations.
 Local Open Scope N_scope.
 
